@@ -4779,6 +4779,10 @@ pub mod verif_hooks {
     pub fn verif_get_arg_type(s: &str, quoted: bool) -> String {
         format!("{:?}", get_arg_type(s, quoted))
     }
+    /// `Constraint::parse`: the constraint and the remainder of the text, or the error
+    pub fn verif_parse_constraint<'a>(text: &'a str) -> Result<(Constraint<'a>, &'a str), StamError> {
+        Constraint::parse(text).map(|(c, _, r)| (c, r))
+    }
     /// `parse_dataoperator` on an argument typed by `get_arg_type`: Debug rendering of the operator, or None on a syntax error
     pub fn verif_parse_dataoperator(opstr: &str, value: &str, quoted: bool) -> Option<String> {
         parse_dataoperator(opstr, value, get_arg_type(value, quoted))
